@@ -11,6 +11,7 @@ mod c09;
 mod c10;
 mod c11;
 mod c13d;
+mod c17s;
 mod c14;
 mod c15;
 mod client_rig;
@@ -49,6 +50,7 @@ fn dispatch(id: &str, tier: Option<&str>) {
         "C10" => c10::main(tier),
         "C11" => c11::main(tier),
         "C13-driver" => c13d::main(tier),
+        "C17-store" => c17s::main(tier),
         "C14" => c14::main(tier),
         "C14-small" => c14::main_small(tier),
         "C15" => c15::main(tier),
